@@ -418,8 +418,7 @@ theorem Ty.framedEps (base : Nat) : ∀ (t : Ty), t.wf = true → ∀ v, t.wt v 
       simp only [Ty.wf, Bool.and_eq_true] at hw
       by_cases hz : mt.zero = true
       · simp only [hz, if_true, Bool.and_eq_true, Bool.not_eq_true'] at hw
-        have hne : mt.isEnum = false := hw.1.2.1
-        have hzc : (Ty.adt mt vs).isZC = true := by simp [Ty.isZC, hz, hw.1.2.2]
+        have hzc : (Ty.adt mt vs).isZC = true := by simp [Ty.isZC, hz, hw.1.2.1]
         cases v with
         | record fs =>
           rw [Ty.blocks_adt_zero mt vs fs pos hz] at ha ⊢
@@ -429,7 +428,14 @@ theorem Ty.framedEps (base : Nat) : ∀ (t : Ty), t.wf = true → ∀ v, t.wt v 
           refine ⟨e, ?_, her, ?_⟩
           · rw [he]; simp
           · intro b hb; rw [heb b hb, hrt.1]; simp
-        | variant i fs => simp [Ty.wt, hne] at hwt
+        | variant i fs =>
+          rw [Ty.blocks_adt_zero_variant mt vs i fs pos hz] at ha ⊢
+          rw [Ty.enc_adt_zero_variant mt vs i fs pos hz, Ty.decEps_adt_zero base mt vs _ pos hz]
+          have hrt := Ty.memRT (.adt mt vs) hzc hw' (.variant i fs) hwt
+          obtain ⟨e, he, her, heb⟩ := decEpsZero_ok base (.adt mt vs) (.variant i fs) pos rest hrt (AlignedAll_single ha)
+          refine ⟨e, ?_, her, ?_⟩
+          · rw [he]; simp
+          · intro b hb; rw [heb b hb, hrt.1]; simp
         | _ => simp [Ty.wt] at hwt
       · simp only [hz, if_false, Bool.false_eq_true] at hw
         have hzf : mt.zero = false := by simpa using hz
